@@ -154,6 +154,25 @@ def pipe_rules(F, rep, T):
         rep.ob("PIPE", "lowering|BinOp::%s" % rop, ok, "BinOp::%s lowers to %s (expected %s(tmp, R(a), R(b)))" % (rop, desc, irop))
         lt = lua_value_text(T, irop)
         rep.ob("PIPE", "emission|IR::%s" % irop, lt == text, "IR::%s is written as `%s` (expected `%s`)" % (irop, lt, text))
+    # .. and there is no second arm for one of these operators: an arm of its own for some operands (`"a" + "b"` joined at
+    # compile time, `x * 1` dropped) computes the operator by another route than the runtime's
+    rops = {v[1]: v[2] for v in BIN_TABLE.values()}
+    for a in T.expr:
+        lab = a["label"]
+        if not lab.startswith("BinOp/") or lab.split("/", 1)[1] not in rops:
+            continue
+        rop = lab.split("/", 1)[1]
+        ops = [i for i in (a["items"] or []) if i[0] == "op"]
+        codes = [i for i in (a["items"] or []) if i[0] == "code"]
+        same = len(ops) == 1 and ops[0][1] == rops[rop] and len(ops[0][2]) == 3 and ops[0][2][1] == ("result", "a", ()) and \
+            ops[0][2][2] == ("result", "b", ()) and [c[2] for c in codes] == ["a", "b"]
+        rep.ob("PIPE", "lowering|BinOp::%s|special-case" % rop, same,
+               "the separate arm for BinOp::%s lowers like the general one" % rop if same else
+               "IRCodeGen::expression has an arm of its own for some BinOp::%s expressions which does not evaluate both operands and "
+               "apply IR::%s to the results (it emits %s): for those operands the operator is computed by the compiler, not by the "
+               "runtime's operator - e.g. two string literals joined as *source text*, where an escape at the end of the left one "
+               "(`\"tab\\9\" + \"1\"`) runs on into the right one" % (rop, rops[rop], [o[1] for o in ops] or "nothing"),
+               a["arm"].get("sp") if isinstance(a.get("arm"), dict) else None)
     for tok, (pnode, rop) in SPECIAL_BIN.items():
         got = ptab.get(tok)
         rep.ob("PIPE", "parser|%s" % tok, bool(got) and got[0] == pnode and got[2], "token %s parses to %s" % (tok, got[0] if got else None))
